@@ -369,10 +369,11 @@ def setups(draw, max_sites=12, jn="maybe", vacancy="maybe", max_order=3, p_catal
     return setup
 
 
-def small_setups(max_sites=10, jn=True):
+def small_setups(max_sites=10, jn=True, select=None):
     """deterministic catalogue for the bounded-exhaustive tiers: every entry has <= max_sites mobile sites.
     Values come from POOL in a fixed order.  With jn=True each entry appears without a vacancy and with a vacancy
-    (vacancy clusters + TS clusters), otherwise without jump network."""
+    (vacancy clusters + TS clusters), otherwise without jump network.  select(n) -> bool restricts the catalogue to the
+    base entries n for which it is true before anything is constructed (sharding)."""
     base = [
         ("SC", [[2, 0, 0], [0, 2, 0], [0, 0, 2]], 1, 3, []), ("SC", [[3, 0, 0], [0, 3, 0], [0, 0, 1]], 2, 3, []),
         ("SC", [[2, 1, 0], [0, 2, 1], [0, 0, 2]], 1, 2, []), ("FCC", [[2, 0, 0], [0, 2, 0], [0, 0, 2]], 1, 3, []),
@@ -388,6 +389,8 @@ def small_setups(max_sites=10, jn=True):
     ]
     out = []
     for n, (name, S, k, order, spect) in enumerate(base):
+        if select is not None and not select(n):
+            continue
         rec = cs.CATALOGUE[name]
         crys = cs.build(rec)
         size = abs(int(round(np.linalg.det(np.array(S)))))
